@@ -145,3 +145,61 @@ Definition mermaid_nodes (t : tree) : list (str * str) :=
   end.
 Definition mermaid_edges (t : tree) : list (str * str) :=
   map (fun f => (mf_from f, mf_to f)) (mermaid_flows t).
+
+(* ---------------------------------------------------------------------------------------------- *)
+(* tree_to_dot: attribute dictionaries of the vertices and edges (export.py:1277-1280, 1303-1326).
+   Every call of _recursive_append starts from a fresh copy of the default style and updates it with
+   the node's own custom dictionary: `node_attr` / `edge_attr` name a Node attribute holding a dict
+   (used when truthy) or are callables returning one.  In this engine the two dictionaries of a node
+   are stored in the tree's attribute list: key 'n' ++ k (value VStr v) for the node style entry
+   k -> v, key 'e' ++ k for the edge style entry.  rankdir / bg_colour only touch the graph object. *)
+
+Definition sdict := list (str * str).
+
+Fixpoint slookup (k : str) (d : sdict) : option str :=
+  match d with [] => None | (k', v) :: r => if str_eqb k k' then Some v else slookup k r end.
+
+(* dict.update for one item: overwrite in place, else append *)
+Fixpoint sset (d : sdict) (k v : str) : sdict :=
+  match d with
+  | [] => [(k, v)]
+  | (k', v') :: r => if str_eqb k k' then (k, v) :: r else (k', v') :: sset r k v
+  end.
+Definition supdate (d u : sdict) : sdict := fold_left (fun acc kv => sset acc (fst kv) (snd kv)) u d.
+
+Definition sty_of (tagc : N) (t : tree) : sdict :=
+  flat_map (fun kv => match kv with
+                      | (c :: k, VStr v) => if N.eqb c tagc then [(k, v)] else []
+                      | _ => []
+                      end) (tattrs t).
+Definition node_sty := sty_of 110%N.     (* 'n' *)
+Definition edge_sty := sty_of 101%N.     (* 'e' *)
+
+Record dotopts := DO { do_node_colour : option str; do_node_shape : option str; do_edge_colour : option str;
+                       do_node_attr : bool; do_edge_attr : bool }.
+
+Definition s_style : str := [115; 116; 121; 108; 101]%N.
+Definition s_filled : str := [102; 105; 108; 108; 101; 100]%N.
+Definition s_fillcolor : str := [102; 105; 108; 108; 99; 111; 108; 111; 114]%N.
+Definition s_shape : str := [115; 104; 97; 112; 101]%N.
+Definition s_color : str := [99; 111; 108; 111; 114]%N.
+Definition s_label : str := [108; 97; 98; 101; 108]%N.
+
+(* lines 1277-1280; an empty string counts as "not given" *)
+Definition given (o : option str) : option str :=
+  match o with Some [] => None | _ => o end.
+Definition node_style0 (o : dotopts) : sdict :=
+  supdate (match given (do_node_colour o) with Some c => [(s_style, s_filled); (s_fillcolor, c)] | None => [] end)
+          (match given (do_node_shape o) with Some s => [(s_shape, s)] | None => [] end).
+Definition edge_style0 (o : dotopts) : sdict :=
+  match given (do_edge_colour o) with Some c => [(s_color, c)] | None => [] end.
+
+(* pydot.Node(name=..., label=child_label, **_node_style) *)
+Definition vertex_attrs (o : dotopts) (x : tree) : sdict :=
+  (s_label, tname x) :: supdate (node_style0 o) (if do_node_attr o then node_sty x else []).
+Definition edge_attrs (o : dotopts) (x : tree) : sdict :=
+  supdate (edge_style0 o) (if do_edge_attr o then edge_sty x else []).
+
+(* attribute dictionaries in creation order: all nodes / all nodes but the root, in pre-order *)
+Definition dot_vertex_attrs (o : dotopts) (t : tree) : list sdict := map (vertex_attrs o) (pre (compact t)).
+Definition dot_edge_attrs (o : dotopts) (t : tree) : list sdict := map (edge_attrs o) (tl (pre (compact t))).
